@@ -7,5 +7,13 @@ for p in C01 C02 C03 C04 C05 C06 C07 C08 C09 C10 C11 C12 C13 C14 C15 C16 C17 C18
   echo "$out" | grep -E "SENSITIVITY-WARNING|VIOLATION|thorough:" 
   echo "$out" | grep -q "SENSITIVITY-WARNING\|VIOLATION" && fail=1
 done
+# behaviour-preserving refactorings must not raise any alarm
+for r in variants/refactor-*.diff; do
+  for p in C01 C02 C03 C04 C05 C06 C07 C08 C09 C10 C11 C12 C13 C14 C15 C16 C17 C18 C19; do
+    out=$(tools/variant.sh "$r" $p 2>&1)
+    if echo "$out" | grep -q "VIOLATION\|DOES NOT APPLY"; then echo "FALSE ALARM on $r: $p"; echo "$out" | grep -E "^C[0-9]+/|APPLY" | cut -c1-200; fail=1; fi
+  done
+  echo "refactoring $r analysed"
+done
 rm -rf /tmp/selftest.*
 exit $fail
